@@ -7,7 +7,7 @@ testdata of every check, semantics-preserving variants, some repository packages
 instances is (a) evaluated with the model inside coqc (positions valid, edits in bounds / non-overlapping, model
 applier = harness applier), (b) parsed and type-checked after import adjustment (Go toolchain as oracle),
 (c) for the simplification / quick-fix categories compiled and run before and after (results, panics, traces)."""
-import json, os, re, sys, subprocess, hashlib
+import json, os, re, sys, subprocess, hashlib, time
 from concurrent.futures import ThreadPoolExecutor
 sys.path.insert(0, os.path.dirname(os.path.abspath(__file__)))
 from common import *
@@ -41,6 +41,10 @@ else:
         broken.append(("Props/C16.v", out[-3000:]))
 
 # ---------------------------------------------------------------- 2. implementation runs (parallel processes)
+if ck.thorough() and not broken:
+    okc, outc = ck.coqchk(["Verif.Props.C16"])
+    if not okc:
+        broken.append(("coqchk Props/C16.vo", outc[-2000:]))
 ck.log("theorems re-checked (%d obligations)" % ck.obligations)
 exe, out = ck.go_build("./cmd/hc16")
 if exe is None:
@@ -70,7 +74,11 @@ def run_job(j):
     w = os.path.join(work, name)
     os.makedirs(w, exist_ok=True)
     res = os.path.join(w, "out.json")
-    rc, o = sh([exe, "-work", w, "-out", res, "-seed", str(ck.seed), "-repo", REPO] + args, timeout=6000)
+    t0 = time.time()
+    # one analysis cache for the parallel jobs of THIS run (fresh scratch directory, removed at the end): the
+    # standard library is analysed once instead of once per job; nothing survives into the next run
+    rc, o = sh([exe, "-work", w, "-out", res, "-seed", str(ck.seed), "-repo", REPO, "-cache", os.path.join(work, "cache")] + args, timeout=6000)
+    ck.log("job %s: %.0fs" % (name, time.time() - t0))
     if rc != 0 or not os.path.exists(res):
         return name, None, o
     return name, json.load(open(res)), o
